@@ -10,6 +10,7 @@ BO = "elexmodel.models.BootstrapElectionModel.BootstrapElectionModel"
 CO = "elexmodel.models.ConformalElectionModel.ConformalElectionModel"
 CL = "elexmodel.client.ModelClient"
 LEVEL = "proof"
+BOUNDED = [{"name": "float_grid", "script": "c14_float_grid.py", "timeout": 1800}]
 ASSUMPTIONS = [
     "A-REAL: floats as reals; round(x,2) is exact round-half-even of 100x (the float evaluation is cross-checked by the bounded companion for alpha in k/1000, n <= 5000)",
     "the solver needs a positive total weight: at least one training row with last_election_results >= 1 (V2: baseline counts are non-negative, +1 added)",
